@@ -555,6 +555,9 @@ def register_pretty(type=None, predicate=None):
                 _DEFERRED_DISPATCH_BY_NAME[type] = fn
             else:
                 pretty_dispatch.register(type, partial(_run_pretty, fn))
+                # An earlier registration by name for the same class
+                # that is still pending is replaced by this one.
+                _DEFERRED_DISPATCH_BY_NAME.pop(get_deferred_key(type), None)
         else:
             assert callable(predicate)
             _PREDICATE_REGISTRY.append((predicate, fn))
@@ -574,11 +577,10 @@ def is_registered(
             'register_deferred may not be True when check_deferred is False'
         )
 
-    if type in pretty_dispatch.registry:
-        return True
-
     if check_deferred:
-        # Check deferred printers for the type exactly.
+        # Check deferred printers for the type exactly. A pending deferred
+        # printer is the latest registration for the type, so it is looked
+        # at before (and replaces) a printer that is already registered.
         deferred_key = get_deferred_key(type)
         deferred_dispatch = _DEFERRED_DISPATCH_BY_NAME.get(deferred_key)
         if deferred_dispatch is not None:
@@ -589,6 +591,9 @@ def is_registered(
                 register_pretty(type)(deferred_dispatch)
                 _DEFERRED_DISPATCH_BY_NAME.pop(deferred_key, None)
             return True
+
+    if type in pretty_dispatch.registry:
+        return True
 
     if not check_superclasses:
         return False
